@@ -350,7 +350,7 @@ def misc_cases(tier):
     for n in (0, 1, 1023, 1025, 5000):
         cases.append(('boot', n))
     for cls in ('MeasurementData', 'UserData', 'LayoutData'):
-        for delta in (-1, 1, 1000):
+        for delta in (-2, -1, 0, 1, 2, 1000):      # delta 0 (exactly the limit): either verdict, but it must be consistent
             for form in ('str', 'obj', 'str-compact', 'str-nonascii'):
                 cases.append(('blob', cls, form, delta))
         cases.append(('blob-invalid', cls))
@@ -461,7 +461,7 @@ def eval_misc(case):
         assert len(text) == size
         json.loads(text)
         arg = json.loads(text) if form == 'obj' else text
-        must = size < cls.MAX_SIZE
+        must = None if size == cls.MAX_SIZE else size < cls.MAX_SIZE
         entries = {'constructor': lambda: cls(arg).json}
         attr = {'MeasurementData': 'mf_data', 'UserData': 'user_data', 'LayoutData': 'layout_data'}[cname]
         entries['element'] = lambda: _elem_blob(attr, arg)
@@ -471,17 +471,18 @@ def eval_misc(case):
                 raised = None
             except Exception as e:
                 raised, st = type(e).__name__, None
-            if must and raised is not None:
+            if must is True and raised is not None:
                 v.append((f'rejects-inside/{cname}/{form}/{nm}', f'{size}-byte blob (limit {cls.MAX_SIZE}) raised {raised}'))
-            if not must and raised is None:
+            if must is False and raised is None:
                 v.append((f'accepts-outside/{cname}/{form}/{nm}', f'{size}-byte blob accepted (limit {cls.MAX_SIZE})'))
-            if must and raised is None and json.loads(st) != json.loads(text):
+            if must is not False and raised is None and json.loads(st) != json.loads(text):
                 v.append((f'not-stored-verbatim/{cname}/{form}/{nm}', 'stored blob differs'))
-            if must and raised is None and form.startswith('str') and nm == 'constructor' and st != text:
+            if must is not False and raised is None and form.startswith('str') and nm == 'constructor' and st != text:
                 v.append((f'not-stored-verbatim/{cname}/{form}/{nm}', f'JSON text of {len(text)} chars stored as a different text of {len(st)} chars'))
             if raised is None and nm == 'constructor' and len(st) > cls.MAX_SIZE:
                 v.append((f'stored-over-limit/{cname}/{form}', f'stored blob has {len(st)} chars, limit {cls.MAX_SIZE}'))
-            if must and raised is None and nm == 'constructor':
+            if raised is None and nm == 'constructor':
+                # whatever was accepted can be decoded again
                 try:
                     cls(st)
                 except Exception as e:
